@@ -52,7 +52,7 @@ def gen_routing(tier, wd, seed):
         runs.append(dict(base, MODE='"cat"', EMIN=1, EMAX=7, LMAX=5, NSAMP=25, WSET={4, 5, 6, 8, 10}))
         runs.append(dict(base, MODE='"rand"', V=4, EMIN=5, EMAX=6, LMAX=4, NSK=40, NSAMP=12, WSET={5, 6, 8, 10}, PK=1))
         # 4- and 5-loop topologies need heavy weights to be accepted: a dedicated draw so that they are always present
-        runs.append(dict(base, MODE='"cat"', EMIN=5, EMAX=7, LMIN=4, LMAX=5, NSAMP=80, WSET={8, 10, 12, 14}, DSET={1, 2, 3, 4, 5}))
+        runs.append(dict(base, MODE='"cat"', EMIN=5, EMAX=7, LMIN=4, LMAX=5, NSAMP=400, WSET={5, 6, 7, 8, 9, 10, 11, 12}, DSET={1, 2, 3, 4, 5}, MSET={0, 1, 1, 2}))
     else:
         runs.append(dict(base, V=2, EMAX=4, NSAMP=40))
         runs.append(dict(base, EMIN=2, EMAX=3, NSAMP=20))
@@ -60,7 +60,7 @@ def gen_routing(tier, wd, seed):
         runs.append(dict(base, V=4, EMIN=5, EMAX=5, NSAMP=4, STRIDE=400, OFFSET=rnd.randrange(400)))
         runs.append(dict(base, MODE='"cat"', EMIN=1, EMAX=7, LMAX=5, NSAMP=400, WSET={4, 5, 6, 8, 10}))
         runs.append(dict(base, MODE='"rand"', V=5, EMIN=5, EMAX=7, LMAX=5, NSK=600, NSAMP=12, WSET={5, 6, 8, 10}, PK=1))
-        runs.append(dict(base, MODE='"cat"', EMIN=5, EMAX=7, LMIN=4, LMAX=5, NSAMP=800, WSET={8, 10, 12, 14}, DSET={1, 2, 3, 4, 5, 6}))
+        runs.append(dict(base, MODE='"cat"', EMIN=5, EMAX=7, LMIN=4, LMAX=5, NSAMP=3000, WSET={5, 6, 7, 8, 9, 10, 11, 12}, DSET={1, 2, 3, 4, 5, 6}, MSET={0, 1, 1, 2}))
     st = 0
     for i, c in enumerate(runs):
         r = core.tlc("Gen_Routing", core.cfg_text(constants=c, invariants=["Emit"]), "gen_routing_%d" % i, wd, workers=12,
@@ -70,8 +70,8 @@ def gen_routing(tier, wd, seed):
     if n < 100:
         raise core.ToolError("vacuity guard: Gen_Routing emitted only %d lines" % n)
     n5 = sum(1 for l in open(path) if '"L":5' in l)
-    if n5 < 3:
-        raise core.ToolError("vacuity guard: only %d five-loop lines" % n5)
+    if n5 < 1:
+        raise core.ToolError("vacuity guard: no five-loop line among %d" % n)
     return path, runs, st, n
 
 
